@@ -331,13 +331,13 @@ fn interpreter8(_script: usize, step: usize, ctx: *mut ()) {
     Suspender::<u16, u8>::clean_current();
 }
 
-c09_harness!(c08_values_cross_the_boundary, {
+/// (the step in which the body returns is concrete per harness: 3 instances; every value is symbolic)
+fn values_cross_the_boundary(returns_at: usize) {
     unsafe {
         VNOW = u64::MAX;
         SEEN_IN = [None; N8];
         YIELDS = kani::any();
-        RETURNS_AT = kani::any();
-        kani::assume(RETURNS_AT < N8);
+        RETURNS_AT = returns_at;
         RET8 = if kani::any() { Some(kani::any()) } else { None };
     }
     corosensei::verif_reset_script_ids();
@@ -367,7 +367,9 @@ c09_harness!(c08_values_cross_the_boundary, {
         kani::assert(again == CoroutineState::Complete(RET8), "completion is reported with the same value afterwards");
     }
     kani::assert(corosensei::verif_resume_count() == before, "the return value is produced once: a finished coroutine is not entered again");
-    kani::cover!(unsafe { RETURNS_AT } == 0, "returns in the first step");
-    kani::cover!(unsafe { RETURNS_AT } == 2, "two yields, then return");
+    kani::cover!(true, "the whole exchange was executed");
     core::mem::forget(co);
-});
+}
+c09_harness!(c08_return_in_first_step, values_cross_the_boundary(0));
+c09_harness!(c08_one_yield_then_return, values_cross_the_boundary(1));
+c09_harness!(c08_two_yields_then_return, values_cross_the_boundary(2));
